@@ -470,6 +470,19 @@ func frSizeFault(mf *Manifest, fault string, f *frFault) (lied []string) {
 	return lied
 }
 
+// frModelsDir returns the directory a case uses as OLLAMA_MODELS inside its scratch directory: on odd shards (and in
+// replays) its name is full of pattern metacharacters - a models directory such as "/data/models [v2]" is legitimate,
+// and code that lets the directory's own path take part in a glob stops finding what is there.
+func frModelsDir(scratch string) string {
+	leaf := "models"
+	if sh, _ := strconv.Atoi(os.Getenv("VERIF_SHARD")); sh%2 == 1 || os.Getenv("VERIF_REPLAY") != "" {
+		leaf = `mod[e-l]s *v?\\2 {a,b}`
+	}
+	d := filepath.Join(scratch, leaf)
+	os.MkdirAll(d, 0o755)
+	return d
+}
+
 // frCheckStore verifies that every layer of the manifest the name resolves to is present with the right size and hash.
 // sizeLied: digests whose size a served manifest misstated - for those only the hash decides (no file can have both
 // the manifest's size and the manifest's digest).
